@@ -440,6 +440,17 @@ def run_impl(cases, workdir, timeout=20, jobs=8):
 def run_model(cases, workdir, extra=None, timeout=600):
     """Runs the cases through the Lean driver. `extra[id]` = lines appended to the case (information the
     model takes from the implementation's answer, e.g. which zoom levels were stored)."""
+    if len(cases) > 1200:
+        # the driver is single-threaded: large batches go through several driver processes at once
+        import concurrent.futures
+        n = 8
+        chunks = [cases[i::n] for i in range(n)]
+        res = {}
+        with concurrent.futures.ThreadPoolExecutor(max_workers=n) as ex:
+            futs = [ex.submit(run_model, ch, os.path.join(workdir, f"m{i}"), extra, max(timeout, 1200)) for i, ch in enumerate(chunks) if ch]
+            for f in futs:
+                res.update(f.result())
+        return res
     os.makedirs(workdir, exist_ok=True)
     path = os.path.join(workdir, "model_cases.txt")
     with open(path, "w") as f:
